@@ -32,8 +32,11 @@ func (c *DnsController) backgroundRefresh(cacheKey string, dnsMessage *dnsmessag
 	// Ensure refreshing flag is cleared even if refresh fails
 	// This prevents permanent deadlock if background refresh fails
 	defer func() {
-		if cache := c.LookupDnsRespCache(cacheKey, false); cache != nil {
-			if cache.IsRefreshing() {
+		// Load the entry directly: LookupDnsRespCache evicts an expired entry, which
+		// would drop the stale answer that is still servable inside the stale window
+		// whenever the refresh fails.
+		if val, ok := c.dnsCache.Load(cacheKey); ok {
+			if cache, ok := val.(*DnsCache); ok && cache.IsRefreshing() {
 				cache.MarkRefreshed()
 			}
 		}
